@@ -249,7 +249,7 @@ func buildCases(tier string) []caseT {
 				}
 			}
 		}
-		times := []string{"0", "1200", "2359", "2360", "2400", "9999", "12000", "-0", "-5m", "+5m", "-1h1m1s", "-1.5h", "-99999999999h", "-9223372036854775807ns", "1h", "\"2020-01-01 1200\"", "\"2020-13-01 1200\"", "\"2020-02-30 0000\"", "\"0000-01-01 0000\"", "\"9999-12-31 2359\"", "\"2020-01-01\"", "@ltime@", "@ltime@+99999999999h", "@x:ftime@-1ns", "\"@ftime@+1h\"", "1200+1h", "x"}
+		times := []string{"0", "1200", "2359", "2360", "2400", "9999", "12000", "-0", "-5m", "+5m", "-1h1m1s", "-1.5h", "-99999999999h", "-9223372036854775807ns", "1h", "\"2020-01-01 1200\"", "\"2020-13-01 1200\"", "\"2020-02-30 0000\"", "\"0000-01-01 0000\"", "\"9999-12-31 2359\"", "\"2020-01-01\"", "\"2020-01-01  1200\"", "\"2020-01-01   120000\"", "\"2020-01-01     1200\"", "\"2020-01-01\t1200\"", "\" 2020-01-01 1200\"", "\"2020-01-01 1200 \"", "\"2020-01-01 1200:2020-01-01      130000\"", "@ltime@", "@ltime@+99999999999h", "@x:ftime@-1ns", "\"@ftime@+1h\"", "1200+1h", "x"}
 		for _, key := range []string{"ftime", "ltime", "time"} {
 			for _, a := range times {
 				vb(key + ":" + a)
